@@ -20,6 +20,7 @@ CONSTANTS
   Dev_LtStopsAfterOneChunk = FALSE
   Dev_IoSendBypassesQueue = FALSE
   Dev_DirectWriteIgnoresQueue = FALSE
+  Dev_DrainAfterSwap = FALSE
 INVARIANT Inv_Stream
 INVARIANT Inv_WirePrefix
 INVARIANT Inv_Read
